@@ -19,6 +19,9 @@
 //                    x set context+finalizer  y queue_set_specific(key, value, destructor)  z final settle
 //                    m create timer source on q (inactive)  M arm (set_timer far future + activate)  X cancel  Z release source
 //                    v create an initially inactive queue qi (reported in place of q until 'V' activates + releases it)
+//                    h H suspend / resume qi while it is still inactive (takes no reference: inactive counts as suspended)
+//                    g create a legacy queue (dispatch_queue_create) and retarget it onto q (dispatch_set_target_queue on an
+//                      active queue: _dispatch_lane_legacy_set_target_queue)  G retarget it away to queue #6 and release it
 //       output: "L" then per call " xref ref", then " | fin_runs fin_ctx_ok fin_on_target specific_dtor_runs items_run"
 //   c17_refs stress <seed> <rounds> <permille>
 //     rounds of 2..6 threads running random enter/leave/notify/retain/release/_dispatch_retain/_dispatch_release scripts
@@ -169,7 +172,7 @@ static void run_group_script(const char *ops, const char *exp) {
 
 static void run_lane_script(const char *ops, const char *exp) {
 	dispatch_queue_t q = dispatch_queue_create_with_target("c17.q", NULL, tq5), qi = NULL, kids[16]; int nk = 0;
-	dispatch_source_t src = NULL; dispatch_object_t shown; shown._dq = q;
+	dispatch_source_t src = NULL; dispatch_object_t shown; shown._dq = q; dispatch_queue_t lk = NULL;
 	atomic_store(&fin_runs, 0); atomic_store(&fin_ctx_id, 0); atomic_store(&fin_queue_id, -1); atomic_store(&items_run, 0);
 	atomic_store(&specific_dtor_runs, 0);
 	long x = 1, susp = 0; int hasfin = 0, hasspec = 0; static char skey; lane_no = (lane_no + 1) & 0xffff; if (!lane_no) lane_no = 1;
@@ -201,9 +204,13 @@ static void run_lane_script(const char *ops, const char *exp) {
 			src = NULL; shown._dq = q; } break;
 		case 'v': qi = dispatch_queue_create("c17.qi", dispatch_queue_attr_make_initially_inactive(NULL)); shown._dq = qi; break;
 		case 'V': dispatch_activate(qi); usleep(300); dispatch_release(qi); qi = NULL; shown._dq = q; break;
+		case 'h': dispatch_suspend(qi); break;
+		case 'H': dispatch_resume(qi); break;
+		case 'g': lk = dispatch_queue_create("c17.lk", NULL); dispatch_set_target_queue(lk, q); dispatch_sync_f(lk, NULL, nop); break;
+		case 'G': dispatch_set_target_queue(lk, tq6); dispatch_sync_f(lk, NULL, nop); dispatch_release(lk); lk = NULL; break;
 		case 'z': break;
 		}
-		int alive = x > 0 || nk > 0 || src != NULL;
+		int alive = x > 0 || nk > 0 || src != NULL || lk != NULL;
 		// deterministic quiescence: a barrier through every queue that can run (items submitted so far have run and the drain
 		// lock is free again); what is left is the drainer's final release, a few instructions later: settle2
 		if (alive && susp == 0) { for (int k = 0; k < nk; k++) dispatch_sync_f(kids[k], NULL, nop); dispatch_sync_f(q, NULL, nop); }
